@@ -222,7 +222,41 @@ func c06(c *Ctx) {
 	}
 	isParamV := func(v ssa.Value) bool { _, ok := resolveLocal(v).(*ssa.Parameter); return ok }
 	passThrough(p.Fn("internal/proxy", "Method"), "internal/patch", "InstanceMethodTrampoline", 0, 1, isParamV, isParamV)
-	if abm := p.Meth("", "baseMocker", "applyByMethod"); abm != nil {
+	var abms []*ssa.Function
+	for _, f := range p.FuncsIn("") {
+		if len(callsTo(f, qual("internal/proxy", "Method"))) > 0 {
+			abms = append(abms, f)
+		}
+	}
+	if len(abms) == 0 {
+		r.Und("C06.R3", "method applier", "", "no function of the root package calls proxy.Method")
+	}
+	// the fields the method mocker keeps its type and method name in: stored by the exported constructor / setter
+	storedFrom := func(f *ssa.Function, isSrc func(ssa.Value) bool) *types.Var {
+		var out *types.Var
+		if f == nil {
+			return nil
+		}
+		eachInstr(f, func(i ssa.Instruction) {
+			if st, ok := i.(*ssa.Store); ok {
+				if fa, ok := st.Addr.(*ssa.FieldAddr); ok && isSrc(resolveLocal(st.Val)) {
+					out = fieldVar(fa.X.Type(), fa.Field)
+				}
+			}
+		})
+		return out
+	}
+	var methodFld, structFld *types.Var
+	if mm := p.Meth("", "MethodMocker", "Method"); mm != nil {
+		methodFld = storedFrom(mm, func(v ssa.Value) bool { return len(mm.Params) > 1 && v == ssa.Value(mm.Params[1]) })
+	}
+	if nm := p.Fn("", "NewMethodMocker"); nm != nil {
+		structFld = storedFrom(nm, func(v ssa.Value) bool {
+			pr, ok := v.(*ssa.Parameter)
+			return ok && pr.Parent() == nm && types.IsInterface(pr.Type())
+		})
+	}
+	for _, abm := range abms {
 		passThrough(abm, "internal/proxy", "Method", 0, 1, func(v ssa.Value) bool {
 			c, ok := v.(*ssa.Call)
 			return ok && calleeName(c.Common()) == "reflect.TypeOf" && isParamV(peel(c.Call.Args[0]))
@@ -232,7 +266,7 @@ func c06(c *Ctx) {
 			args := cs.Instr.Common().Args
 			_, f1, ok1 := fieldRef(resolveLocal(args[1]))
 			_, f2, ok2 := fieldRef(resolveLocal(args[2]))
-			r.Check(ok1 && ok2 && f1 != nil && f2 != nil && f1.Name() == "structDef" && f2.Name() == "method", "C06.R3", "mocker fields passed in "+shortName(cs.Caller), p.Pos(posOf(cs.Instr)), "applyByMethod(m.structDef, m.method, …)", "the method mocker applies with something other than its own type and method name")
+			r.Check(ok1 && ok2 && f1 != nil && f2 != nil && f1 == structFld && f2 == methodFld, "C06.R3", "mocker fields passed in "+shortName(cs.Caller), p.Pos(posOf(cs.Instr)), "applyByMethod(m.structDef, m.method, …)", "the method mocker applies with something other than its own type and method name")
 		}
 	}
 	// MethodMocker.Method stores the name parameter
@@ -240,7 +274,7 @@ func c06(c *Ctx) {
 		okS := false
 		eachInstr(mm, func(i ssa.Instruction) {
 			if st, ok := i.(*ssa.Store); ok {
-				if fa, ok := st.Addr.(*ssa.FieldAddr); ok && fieldVar(fa.X.Type(), fa.Field).Name() == "method" && resolveLocal(st.Val) == ssa.Value(mm.Params[1]) {
+				if fa, ok := st.Addr.(*ssa.FieldAddr); ok && fieldVar(fa.X.Type(), fa.Field) == methodFld && methodFld != nil && resolveLocal(st.Val) == ssa.Value(mm.Params[1]) {
 					okS = true
 				}
 			}
@@ -255,15 +289,16 @@ func c06(c *Ctx) {
 	for _, f := range p.FuncsIn("") {
 		for _, cs := range callsTo(f, "fmt.Sprintf") {
 			if c, ok := callCommon(cs).Args[0].(*ssa.Const); ok && c.Value != nil && c.Value.Kind() == constant.String {
-				if strings.HasSuffix(f.Name(), "objName") || f.Name() == "ExportMethod" || f.Name() == "ExportStruct" {
-					fmts[shortName(f)+"|"+constant.StringVal(c.Value)] = true
+				fmts[shortName(f)+"|"+constant.StringVal(c.Value)] = true
+				if f.Signature.Recv() != nil {
+					fmts["methods of "+types.TypeString(f.Signature.Recv().Type(), func(*types.Package) string { return "mocker" })+"|"+constant.StringVal(c.Value)] = true
 				}
 			}
 		}
 	}
 	for _, spec := range []struct{ fn, want string }{
-		{"(*mocker.UnexportedMethodMocker).objName", "%s.%s.%s"},
-		{"(*mocker.UnexportedFuncMocker).objName", "%s.%s"},
+		{"methods of *mocker.UnexportedMethodMocker", "%s.%s.%s"},
+		{"methods of *mocker.UnexportedFuncMocker", "%s.%s"},
 		{"(*mocker.MethodMocker).ExportMethod", "(%s)"},
 		{"(*mocker.Builder).ExportStruct", "(%s)"},
 	} {
@@ -292,7 +327,23 @@ func c06(c *Ctx) {
 		}
 	}
 	// typeName marks pointer receivers with *
-	if tn := p.Fn("", "typeName"); tn != nil {
+	var tns []*ssa.Function
+	for _, f := range p.FuncsIn("") {
+		if f.Signature.Results().Len() != 1 || f.Signature.Recv() != nil {
+			continue
+		}
+		for _, ret := range returnsOf(f) {
+			if bo, ok := retResult(ret, 0).(*ssa.BinOp); ok && bo.Op == token.ADD {
+				if c, ok := bo.X.(*ssa.Const); ok && c.Value != nil && c.Value.Kind() == constant.String && constant.StringVal(c.Value) == "*" {
+					tns = append(tns, f)
+				}
+			}
+		}
+	}
+	if len(tns) == 0 {
+		r.Bad("C06.R4", "type name marks pointer receivers", "", "no function of the root package builds \"*\"+name: pointer receivers are not marked with * in the type name")
+	}
+	for _, tn := range tns {
 		okStar := false
 		for _, ret := range returnsOf(tn) {
 			if bo, ok := retResult(ret, 0).(*ssa.BinOp); ok && bo.Op == token.ADD {
